@@ -139,20 +139,23 @@ class solve_torchfcn(torch.autograd.Function):
         ctx.bck_config = set_default_option({
         }, bck_options)
 
+        # the method is looked up first, so that an unknown name is rejected
+        # for every input
+        methods = {
+            "custom_exactsolve": custom_exactsolve,
+            "scipy_gmres": wrap_gmres,
+            "broyden1": broyden1_solve,
+            "cg": cg,
+            "bicgstab": bicgstab,
+            "gmres": gmres,
+        }
+        method_fcn = get_method("solve", methods, method)
+
         if torch.all(B == 0):  # special case
             dims = (*_get_batchdims(A, B, E, M), *B.shape[-2:])
             x = torch.zeros(dims, dtype=B.dtype, device=B.device)
         else:
             with A.uselinopparams(*params), M.uselinopparams(*mparams) if M is not None else dummy_context_manager():
-                methods = {
-                    "custom_exactsolve": custom_exactsolve,
-                    "scipy_gmres": wrap_gmres,
-                    "broyden1": broyden1_solve,
-                    "cg": cg,
-                    "bicgstab": bicgstab,
-                    "gmres": gmres,
-                }
-                method_fcn = get_method("solve", methods, method)
                 x = method_fcn(A, B, E, M, **config)
 
         ctx.e_is_none = E is None
